@@ -128,11 +128,17 @@ pub fn run(ctx: &Ctx) -> Rep {
                 for b in a..64 {
                     check(st, (1u64 << a) | (1u64 << b)); // all one- and two-bit values
                     st.rep.distinct += 1;
-                    if ctx.thorough() {
+                    if !ctx.smoke() {
+                        // every three- and four-bit value (41,664 + 635,376)
                         for c in (b + 1)..64 {
                             if b > a {
-                                check(st, (1u64 << a) | (1u64 << b) | (1u64 << c));
+                                let m3 = (1u64 << a) | (1u64 << b) | (1u64 << c);
+                                check(st, m3);
                                 st.rep.distinct += 1;
+                                for d in (c + 1)..64 {
+                                    check(st, m3 | (1u64 << d));
+                                    st.rep.distinct += 1;
+                                }
                             }
                         }
                     }
@@ -233,7 +239,7 @@ pub fn run(ctx: &Ctx) -> Rep {
     rep.rule = format!(
         "0, all 64 one-bit and all 2,016 two-bit values{}, boundary sets, zero / one / two card bits with every subset of the twelve non-card bits, and {} seeded sets cycling through every population count 0..64; \
          model = descending bit scan; distinct = structured values + seeded values (conservative)",
-        if ctx.thorough() { ", all 41,664 three-bit values" } else { "" },
+        ", all three- and four-bit values",
         n_rand
     );
     rep
